@@ -942,8 +942,19 @@ func (g *Gen) one() (Action, bool) {
 			op = "armburst"
 		}
 		return Action{Op: op, KRep: items}, true
-	case "kbuf", "kbufburst", "kbufbad", "kbufnocp":
+	case "kbuf", "kbufbad", "kbufnocp":
 		return g.kbuf()
+	case "kbufburst":
+		// a burst well beyond a few packets: around and beyond plausible queue sizes
+		a, ok := g.kbuf()
+		if ok && a.KBuf != nil {
+			a.KBuf.Count = pick(g.rng, 20, 33, 40, 70, 130, 260, 515, 600, 1100)
+			a.KBuf.Len = 8 + g.intn(24)
+			if a.KBuf.Action&8 != 0 && a.KBuf.Count > 100 {
+				a.KBuf.Action = 4 // keep the report traffic of huge bursts down
+			}
+		}
+		return a, ok
 	case "ans":
 		return Action{Op: "ans", Ans: &AnsIntent{Idx: g.intn(4), Mode: pick(g.rng, "ok", "ok", "ok", "wrongpeer", "wrongseq", "seid0")}}, true
 	case "ansseid0":
